@@ -4,3 +4,8 @@ from checks import lkcommon
 
 def run(ctx):
     lkcommon.run(ctx, "C02")
+
+
+def run(ctx, _inner=run):     # + T5-race (lib/racetie.py): data-race freedom, the assumption under every interleaving model; also re-runs its replay files
+    from lib import racetie
+    return racetie.stage(ctx, _inner, ["lock"])
